@@ -340,6 +340,56 @@ def rtd_near_r0(run, rng, nparams):
                           case, expected=0.0, actual=bad[0][1])
 
 
+def rtd_two_configurations(run, rng, npairs):
+    """Two RTD scalings with DIFFERENT Callendar-Van Dusen coefficients are given the SAME voltages (same
+    excitation, wiring and lead resistance, hence the same measured resistances, all on the quartic branch), one
+    after the other in one process: each must return the temperature of ITS OWN law (state shared between scaling
+    objects - a cache keyed by the resistance only - would hand the second one the first one's roots)."""
+    import numpy as np
+    for _ in range(npairs):
+        p1 = gen_rtd_params(rng)
+        p2 = dict(p1)
+        p2["a"] = p1["a"] * rng.choice([0.96, 1.03, 1.05])
+        p2["b"] = p1["b"] * rng.choice([0.9, 1.1])
+        p2["c"] = p1["c"] * rng.choice([0.8, 1.2])
+        temps1 = [rng.uniform(-195.0, -1.0) for _ in range(5)]
+        vs = [rtd_forward(p1, x) for x in temps1]
+        # the temperatures these voltages mean under the second law (bisection on its own forward law)
+        temps2 = []
+        for v in vs:
+            lo, hi = -250.0, 60.0
+            if not (rtd_forward(p2, lo) < v < rtd_forward(p2, hi)):
+                temps2.append(None)
+                continue
+            for _k in range(200):
+                mid = 0.5 * (lo + hi)
+                if rtd_forward(p2, mid) < v:
+                    lo = mid
+                else:
+                    hi = mid
+            temps2.append(0.5 * (lo + hi))
+        case = {"kind": "rtd", "params": p2, "xs": [x for x in temps2 if x is not None], "after": p1}
+        run.count("rtd_two_configuration_pairs")
+        run.cov["evaluations"] += len(vs)
+        try:
+            y1 = [float(u) for u in make_scaling("rtd", p1).scale(np.array(vs, dtype=np.float64))]
+            y2 = [float(u) for u in make_scaling("rtd", p2).scale(np.array(vs, dtype=np.float64))]
+        except Exception as e:     # noqa: BLE001
+            run.violation("rtd-raises", "rtd scaling raised %r (two configurations, same voltages)" % (e,), case,
+                          actual=repr(e))
+            continue
+        for x1, x2, v, a1, a2 in zip(temps1, temps2, vs, y1, y2):
+            if abs(a1 - x1) > direct_tol("rtd", x1):
+                run.violation("rtd-inverse", "rtd scaling: voltage %r -> %r, law gives %r (params %r)" % (v, a1, x1, p1),
+                              case, expected=x1, actual=a1)
+                break
+            if x2 is not None and x2 < -0.5 and abs(a2 - x2) > direct_tol("rtd", x2):
+                run.violation("rtd-inverse", "a second RtdScaling with other coefficients, scaling the same voltage "
+                              "after the first: %r -> %r, its own law gives %r (first scaling's answer %r; params %r)"
+                              % (v, a2, x2, a1, p2), case, expected=x2, actual=a2)
+                break
+
+
 def direct_tol(kind, x):
     if kind == "strain":
         return 1e-6 * abs(x) + 1e-12
@@ -938,6 +988,7 @@ def main():
     rtd = [(p, gen_rtd_temps(rng, per_set)) for p, _ in rtd]
     run_sensor(run, "rtd", rtd, "rtd_samples", collect)
     rtd_near_r0(run, rng, run.pick(60, 800))
+    rtd_two_configurations(run, rng, run.pick(40, 600))
     th = [(gen_thermistor_params(rng), gen_thermistor_temps(rng, per_set)) for _ in range(n_sets)]
     run_sensor(run, "thermistor", th, "thermistor_samples", collect)
     n_strain = run.pick(8, 80)
